@@ -578,4 +578,137 @@ theorem inv2_reachable {x : Sys α} (h : Reachable false x) : Inv2 x := by
   | init acc fr => exact inv2_init acc fr
   | step l hr hs ih => exact inv2_step l (inv1_reachable hr) ih hs
 
+/-! ### frames may be appended to the wire later (what the engine does op by op) -/
+
+/-- More frames arrive later. -/
+def ext (x : Sys α) (fs : List (Frame α)) : Sys α := { x with frames := x.frames ++ fs }
+
+theorem step_ext {ff : Bool} {x y : Sys α} (l : Label) (fs : List (Frame α))
+    (h : step ff x l = some y) : step ff (ext x fs) l = some (ext y fs) := by
+  cases l with
+  | hNext =>
+    simp only [step, stepNext] at h ⊢
+    split at h
+    · next f rest htodo hfr =>
+      have h1 : (ext x fs).todo = [] := htodo
+      have h2 : (ext x fs).frames = f :: (rest ++ fs) := by simp [ext, hfr]
+      rw [h1, h2]
+      simp only
+      split at h
+      · next hreg =>
+        have : (ext x fs).reg = true := hreg
+        rw [if_pos this]
+        cases f <;> (simp only at h ⊢; injection h with h; subst h; rfl)
+      · next hreg =>
+        have : ¬ (ext x fs).reg = true := hreg
+        rw [if_neg this]
+        injection h with h; subst h; simp [ext, htodo]
+    · cases h
+  | hStep =>
+    simp only [step, stepMicro] at h ⊢
+    have ht : (ext x fs).todo = x.todo := rfl
+    have hs : (ext x fs).s = x.s := rfl
+    rw [ht, hs]
+    split at h
+    · cases h
+    · split at h <;> (injection h with h; subst h; simp_all [ext])
+    · split at h
+      · injection h with h; subst h; simp_all [ext]
+      · cases h
+    · split at h <;> (injection h with h; subst h; simp_all [ext])
+    · injection h with h; subst h; rfl
+    · injection h with h; subst h; rfl
+    · injection h with h; subst h; rfl
+    · injection h with h; subst h; rfl
+  | hAbort =>
+    simp only [step, stepAbort] at h ⊢
+    have ht : (ext x fs).todo = x.todo := rfl
+    have hs : (ext x fs).s = x.s := rfl
+    rw [ht, hs]
+    split at h
+    · split at h
+      · injection h with h; subst h; simp_all [ext]
+      · cases h
+    · cases h
+  | rStart =>
+    simp only [step] at h ⊢
+    have hr : (ext x fs).rpc = x.rpc := rfl
+    have hs : (ext x fs).s = x.s := rfl
+    rw [hr, hs]
+    split at h
+    · next hi => rw [if_pos hi]; split at h <;> (injection h with h; subst h; simp_all [ext, deliver])
+    · cases h
+  | rSelData =>
+    simp only [step] at h ⊢
+    have hr : (ext x fs).rpc = x.rpc := rfl
+    have hs : (ext x fs).s = x.s := rfl
+    rw [hr, hs]
+    split at h
+    · next hi =>
+      rw [if_pos hi]
+      split at h
+      · injection h with h; subst h; simp_all [ext, deliver]
+      · cases h
+    · cases h
+  | rSelFin =>
+    simp only [step] at h ⊢
+    have hr : (ext x fs).rpc = x.rpc := rfl
+    have hs : (ext x fs).s = x.s := rfl
+    rw [hr, hs]
+    split at h
+    · next hi => rw [if_pos hi]; injection h with h; subst h; rfl
+    · cases h
+  | rSelClosed =>
+    simp only [step] at h ⊢
+    have hr : (ext x fs).rpc = x.rpc := rfl
+    have hs : (ext x fs).s = x.s := rfl
+    rw [hr, hs]
+    split at h
+    · next hi => rw [if_pos hi]; injection h with h; subst h; rfl
+    · cases h
+  | rDrain =>
+    simp only [step] at h ⊢
+    have hr : (ext x fs).rpc = x.rpc := rfl
+    have hs : (ext x fs).s = x.s := rfl
+    rw [hr, hs]
+    split at h
+    · next hi => rw [if_pos hi]; split at h <;> (injection h with h; subst h; simp_all [ext, deliver])
+    · cases h
+  | ack =>
+    simp only [step] at h ⊢
+    have hs : (ext x fs).s = x.s := rfl
+    rw [hs]
+    split at h
+    · next hi => rw [if_pos hi]; injection h with h; subst h; rfl
+    · cases h
+  | lCloseWrite =>
+    simp only [step] at h ⊢
+    have hs : (ext x fs).s = x.s := rfl
+    rw [hs]
+    split at h
+    · cases h
+    · next hi => rw [if_neg hi]; injection h with h; subst h; rfl
+  | lClose =>
+    simp only [step] at h ⊢
+    have hs : (ext x fs).s = x.s := rfl
+    rw [hs]
+    split at h
+    · cases h
+    · next hi => rw [if_neg hi]; injection h with h; subst h; rfl
+  | closeEnd =>
+    simp only [step] at h ⊢
+    have hs : (ext x fs).s = x.s := rfl
+    rw [hs]
+    split at h
+    · next hi => rw [if_pos hi]; injection h with h; subst h; rfl
+    · cases h
+
+theorem reachable_ext {ff : Bool} {x : Sys α} (h : Reachable ff x) (fs : List (Frame α)) :
+    Reachable ff (ext x fs) := by
+  induction h with
+  | init acc fr =>
+    have : ext (init acc fr) fs = init acc (fr ++ fs) := by cases acc <;> rfl
+    rw [this]; exact Reachable.init _ _
+  | step l _ hs ih => exact Reachable.step l ih (step_ext l fs hs)
+
 end MM.C18
